@@ -48,7 +48,8 @@ Structure(TT, pk, c0) ==
   /\ V("POOL", PoolOK(TT), "slots are not partitioned into sentinel / tree / free list")
   /\ V("GROWTH", GrowthOK(TT, IF gaps THEN Max(pk, rpeak) ELSE pk, c0), <<"arena slots", Len(TT.nd), "peak stored", IF gaps THEN Max(pk, rpeak) ELSE pk>>)
 
-Refines(TT, f) == RangeOK(TT) /\ Contents(TT) = Graph(f)
+\* the stored entries are exactly the reference's: nothing lost, nothing altered, nothing twice
+Refines(TT, f) == RangeOK(TT) /\ Contents(TT) = Graph(f) /\ Count(TT) = Cardinality(DOMAIN f)
 \* lists: get_value of every key of the universe + is_empty; the returned value must carry its key
 ObsOK(f) == /\ {<<Ev.obs[i][1], Ev.obs[i][3]>> : i \in 1..Len(Ev.obs)} = Graph(f)
             /\ \A i \in 1..Len(Ev.obs) : Ev.obs[i][2] = Ev.obs[i][1]
